@@ -123,8 +123,10 @@ def impl_select(rng, fronts, costs, markers):
     with Draws(rng) as d:
         w = sel.select(Watched(pop))
     cands = None
-    if d.sampled:
+    if d.sampled and len(d.sampled[-1]) == 2:
         cands = [pos.get(id(o), -1) for o in d.sampled[-1]]
+    elif d.sampled:
+        cands = None          # random.sample was used for something else (e.g. a shuffled pool): candidates not observed
     else:
         # the candidates were not drawn with random.sample: they are the two positions that were read by index
         seen = []
@@ -468,7 +470,8 @@ def run(ctx):
                 "1..30) designs with 0..2 extra copies (new objects with identical vectors, or the same object twice), front "
                 "numbers a function of the design, crowding distances from a pool with inf and ties, k from {1, .., n+2}, "
                 "shuffled input order; non-trivial = k smaller than the number of distinct designs. tournament: populations "
-                "of 1..8 (thorough 1..20), 1..3 objectives from small pools, 1..3 fronts; non-trivial = at least 2 members. "
+                "of 1..8 (thorough 1..20), 1..3 objectives from small pools, 1..3 fronts; non-trivial = at least 2 members; plus "
+                "histories of select() calls of one selector object on one population list edited in place between the calls. "
                 "distinct = distinct encoded request")
     ctx.assumptions += [
         "objective values and crowding distances are finite floats of moderate magnitude (differences do not overflow); NaN excluded",
@@ -484,6 +487,9 @@ def run(ctx):
     if ctx.failures:
         return
     run_select(ctx)
+    if ctx.failures:
+        return
+    run_select_stateful(ctx)
 
 
 def run_crowding(ctx):
@@ -698,6 +704,75 @@ def run_select(ctx):
             return
 
 
+def exec_select_history(case):
+    """Execute one recorded history; returns None or (key, sentence)."""
+    from artap.operators import TournamentSelector
+    import random as _random
+    sel = TournamentSelector([])
+    mk = lambda d: new_ind([float(d[0])], [float(d[1]), float(d[2])], True, d[3], float(d[4]))
+    L = [mk(d) for d in case["initial"]]
+    _random.seed(case["seed"])
+    done, calls = [], 0
+    for op in case["script"]:
+        done.append(op[0])
+        if op[0] == "replace":
+            L[op[1] % len(L)] = mk(op[2])
+        elif op[0] == "remove":
+            if len(L) > 1:
+                del L[op[1] % len(L)]
+        elif op[0] == "append":
+            L.append(mk(op[2]))
+        elif op[0] == "newlist":
+            L = list(L)
+        else:
+            calls += 1
+            w = sel.select(L)
+            if id(w) not in [id(o) for o in L]:
+                return ("select-member", "TournamentSelector.select (one selector object, history %r on one population list edited in "
+                        "place): call %d returned the design %r, which is not a member of the population %r it was given" % (
+                            done, calls, list(w.vector), [list(o.vector) for o in L]))
+            if len(L) == 2:
+                a, b = L
+                o = b if w is a else a
+                fw, fo = w.features["front_number"], o.features["front_number"]
+                if fw > fo or (fw == fo and spec_dom(list(o.costs_signed[:-1]), list(w.costs_signed[:-1]), o.costs_signed[-1], w.costs_signed[-1]) == 1):
+                    return ("select-worse", "TournamentSelector.select (history %r): of the two members (fronts %r/%r, signed costs %r/%r) "
+                            "the worse one was returned" % (done, fw, fo, list(w.costs_signed), list(o.costs_signed)))
+    return None
+
+
+def run_select_stateful(ctx):
+    """One long-lived selector, one population list that is edited IN PLACE between calls (members removed, replaced,
+    appended - what Selector.pop_acceptance does to the eps-MOEA working population): every call must return a member
+    of the population as it is at that call, and never the worse of a pair when the population has two members."""
+    rng = ctx.rng
+    n_hist = 150 if ctx.quick else 3000
+    for h in range(n_hist):
+        serial = [0]
+
+        def fresh():
+            serial[0] += 1
+            return [serial[0], rng.randint(0, 4), rng.randint(0, 4), rng.randint(1, 3), rng.choice([0.0, 0.5, 1e308])]
+        case = {"op": "select-history", "initial": [fresh() for _ in range(rng.randint(2, 7))], "seed": rng.getrandbits(48), "script": []}
+        for step in range(rng.randint(4, 14)):
+            op = rng.choice(["select", "select", "select", "replace", "remove", "append", "newlist"])
+            case["script"].append([op, rng.randrange(64), fresh()] if op in ("replace", "append") else [op, rng.randrange(64)])
+        n_sel = sum(1 for o in case["script"] if o[0] == "select")
+        ctx.case(("select-hist", case["seed"]), nontrivial=n_sel > 1, sample=case if h < 2 else None)
+        ctx.count("select_stateful_calls", n_sel)
+        res = exec_select_history(case)
+        if res is not None:
+            # shorter history with the same verdict
+            sc = case["script"]
+            for cut in range(len(sc)):
+                c2 = dict(case, script=sc[:cut + 1])
+                if exec_select_history(c2) is not None:
+                    case, res = c2, exec_select_history(c2)
+                    break
+            ctx.fail(res[0], res[1], case)
+            return
+
+
 def report_select(ctx, c, w, cands, cl):
     fronts, costs, markers = c
     key, what = cl
@@ -730,6 +805,10 @@ def replay(ctx, rp):
     import random
     c = rp["case"]
     op = c.get("op")
+    if op == "select-history":
+        res = exec_select_history(c)
+        print("history %r on a population of %d: %s" % ([o[0] for o in c["script"]], len(c["initial"]), res[1] if res else "every call returned an admissible member"))
+        return res is None
     if op == "crowd":
         rows = c["rows"]
         bad = crowd_bad(rows)
